@@ -1254,3 +1254,125 @@ def rule_get_variable_bounds(ctx: Ctx, rule: str = "bounds-order") -> None:
         construct = "PolyhedralTermList.optimize: the LP is over self's matrix and bounds"
         okc = len(t2p) == 1 and t2p[0]["args"] and t2p[0]["args"][0] == ("param", "self") and a_ub == ("item", t2p[0]["result"], 1) and b_ub == ("item", t2p[0]["result"], 2)
         (ctx.ok(rule, key, construct) if okc else ctx.violation(rule, key, construct, "A_ub=%s b_ub=%s" % (show(a_ub, 3), show(b_ub, 3)), where=fi.where))
+
+
+# ------------------------------------------------ Kaykobad context guards (C04 g)
+def rule_kaykobad_guards(ctx: Ctx, rule: str = "kaykobad-guards") -> None:
+    """C04(g): when rows for the elimination system are picked from the context, (1) the term itself is skipped,
+    (2) rows mentioning *other* eliminated variables are skipped, (3) the sign condition is checked on EVERY
+    eliminated variable of the term that the row mentions (not only on the pivot), with the polarity of the
+    direction (refine: same sign as the term, relax: opposite)."""
+    prog = ctx.prog
+    key = PTL + "_get_kaykobad_context"
+    fi = prog.func(key)
+    fl = Flow(fi.node)
+    term_p, ctx_p, elim_p, refine_p = fi.params[0], fi.params[1], fi.params[2], fi.params[3]
+
+    def iter_sources(it: ast.AST) -> Set[str]:
+        return fl.sources(it)
+
+    # loops over the term's own eliminated variables / over the other eliminated variables
+    own_loops, other_loops, ctx_loops = [], [], []
+    binders = []
+    for node in ast.walk(fi.node):
+        if isinstance(node, ast.For):
+            binders.append(node)
+        elif isinstance(node, (ast.ListComp, ast.GeneratorExp, ast.SetComp)):
+            for g in node.generators:
+                # a comprehension generator behaves like a loop whose body is the comprehension itself
+                b = ast.For(target=g.target, iter=g.iter, body=[ast.Expr(value=node)], orelse=[])
+                binders.append(b)
+    for node in binders:
+        if isinstance(node.target, (ast.Name, ast.Tuple)):
+            src = iter_sources(node.iter)
+            calls = {s for s in src if s.startswith("call:")}
+            if elim_p in src and ("%s.vars" % term_p) in src:
+                if any(s.endswith("list_intersection") for s in calls) and not any(s.endswith("list_diff") for s in calls):
+                    own_loops.append(node)
+                elif any(s.endswith("list_diff") for s in calls) and not any(s.endswith("list_intersection") for s in calls):
+                    other_loops.append(node)
+            if ("%s.terms" % ctx_p) in src:
+                ctx_loops.append(node)
+    if not ctx_loops:
+        ctx.cannot_decide(rule, key, "context loop", "no loop over the context terms found")
+        return
+    ctx_vars = {n.target.id for n in ctx_loops if isinstance(n.target, ast.Name)}
+
+    def loopvar(n: ast.For) -> Optional[str]:
+        t = n.target
+        if isinstance(t, ast.Name):
+            return t.id
+        if isinstance(t, ast.Tuple) and isinstance(t.elts[-1], ast.Name):
+            return t.elts[-1].id
+        return None
+
+    # (1) the term itself is skipped
+    construct = "_get_kaykobad_context never uses the term being transformed as one of its own context rows"
+    okc = False
+    for node in ast.walk(fi.node):
+        if isinstance(node, ast.If) and isinstance(node.test, ast.Compare) and len(node.test.ops) == 1 and isinstance(node.test.ops[0], (ast.Eq, ast.Is)):
+            names = {norm(node.test.left), norm(node.test.comparators[0])}
+            if term_p in names and (names - {term_p}) <= ctx_vars and any(isinstance(x, ast.Continue) for x in node.body):
+                okc = True
+    (ctx.ok(rule, key, construct) if okc else ctx.violation(rule, key, construct, "no `if context_term == term: continue` guard", where=fi.where))
+    # (2) rows with other eliminated variables are skipped
+    construct = "_get_kaykobad_context skips context rows that mention other eliminated variables"
+    okc = False
+    for lp in other_loops:
+        v = loopvar(lp)
+        for x in ast.walk(lp):
+            if isinstance(x, ast.Compare) and isinstance(x.ops[0], ast.NotEq) and "get_coefficient(%s)" % v in norm(x.left) and norm(x.comparators[0]) == "0":
+                okc = True
+    (ctx.ok(rule, key, construct) if okc else ctx.violation(rule, key, construct, "no test of the row's coefficients on the other eliminated variables", where=fi.where))
+    # (3) sign condition on every own eliminated variable
+    construct = "_get_kaykobad_context checks the sign condition on every eliminated variable of the term that the row mentions"
+    sign_cmps = []
+    for node in ast.walk(fi.node):
+        if isinstance(node, ast.Compare) and len(node.ops) == 1 and isinstance(node.ops[0], (ast.NotEq, ast.Eq)):
+            t = norm(node)
+            if t.count("get_sign(") >= 2:
+                sign_cmps.append(node)
+    good = False
+    pivot_only = False
+    for c in sign_cmps:
+        # variables used in the get_sign calls
+        vs = set()
+        for x in ast.walk(c):
+            if isinstance(x, ast.Call) and isinstance(x.func, ast.Attribute) and x.func.attr == "get_sign" and x.args:
+                vs.add(norm(x.args[0]))
+        if len(vs) != 1:
+            continue
+        v = vs.pop()
+        enclosing = [lp for lp in own_loops if any(n is c for n in ast.walk(lp)) and loopvar(lp) == v]
+        # the innermost own-loop binding v must range over all own eliminated variables (not be the pivot loop that
+        # also encloses the context loop)
+        inner = [lp for lp in enclosing if not any(cl in list(ast.walk(lp)) for cl in ctx_loops)]
+        if inner:
+            good = True
+        elif enclosing:
+            pivot_only = True
+    if good:
+        ctx.ok(rule, key, construct)
+    elif pivot_only or sign_cmps:
+        ctx.violation(rule, key, construct, "the sign comparison is made only for the pivot variable, not for every eliminated variable of the term", where=fi.where)
+    else:
+        ctx.violation(rule, key, construct, "no sign comparison between the row's and the term's coefficients", where=fi.where)
+    # polarity of the sign condition:  transform_coeff = +1 iff refine
+    construct = "_get_kaykobad_context: the sign condition uses +1 when refining and -1 when relaxing"
+    for rv, want in ((True, 1), (False, -1)):
+        ps_ = Sim(prog, fi, assume=lambda v, rv=rv: const(rv) if v == ("param", refine_p) else None, loop_iters=(0,)).paths()
+        vals = set()
+        for p in ps_:
+            for nm in ("transform_coeff",):
+                if nm in p.env and is_const(p.env[nm]):
+                    vals.add(p.env[nm][1])
+        # find how the coefficient multiplies the context sign in the comparison
+        if vals == {want}:
+            ctx.ok(rule, key, construct + " (refine=%s)" % rv, nontrivial=False)
+        elif vals:
+            ctx.violation(rule, key, construct, "with refine=%s the factor is %s" % (rv, sorted(vals)), where=fi.where)
+    for c in sign_cmps:
+        t = norm(c)
+        construct2 = "_get_kaykobad_context: the polarity factor multiplies the context row's sign, compared for equality with the term's sign"
+        okp = "transform_coeff" in t and isinstance(c.ops[0], ast.NotEq)
+        (ctx.ok(rule, key, construct2, nontrivial=False) if okp else ctx.cannot_decide(rule, key, construct2, "unrecognised sign comparison %s" % t))
